@@ -42,4 +42,7 @@ for nm, cov in (('pgram', 'MeshPredictionSchemeParallelogramDecoder::ComputeOrig
     ub('C02.pred_dec_%s' % nm, 'C02/preddec.cc', 'h_%s_dec' % nm, unwind=10, max_alloc=16, defines={'NE': (3 if nm == 'pgram' else 2), 'NCOMP': 1},
        bound='arbitrary in-range corner table (2 faces, symmetric opposite pairing), 3 (parallelogram) / 2 (multi) entries x 1 component, ANY int32 corrections, any valid wrap bounds, crease-flag arrays of length 0..3',
        covers=cov + ', PredictionSchemeWrapDecodingTransform::ComputeOriginalValue')
+ub('C02.kd_signed_dec', 'C02/kdsigned.cc', 'h_kd_signed_dec', unwind=6, max_alloc=64, timeout=900, fill_bound=6,
+   bound='one INT32 / INT16 / INT8 attribute, 1 value, ANY decoded unsigned pattern and ANY minimum from the stream',
+   covers='KdTreeAttributesDecoder::TransformAttributesToOriginalFormat, TransformAttributeBackToSignedType<int32_t/int16_t/int8_t>, PointAttribute::GetValue/SetAttributeValue')
 META = {}
